@@ -123,10 +123,12 @@ def V(oracle, msg, case=None, observed=None, expected=None, tol=None, signature=
 
 
 _WORK_FN = None
+_HANGS = None  # shared counter of cases that did not terminate (set per pool)
 
 
-def _init_worker(fn_module, fn_name):
-    global _WORK_FN
+def _init_worker(fn_module, fn_name, hangs=None):
+    global _WORK_FN, _HANGS
+    _HANGS = hangs
     bind()
     mod = __import__(fn_module, fromlist=[fn_name])
     _WORK_FN = getattr(mod, fn_name)
@@ -140,10 +142,17 @@ MAX_HANGS = 6
 
 def _run_one(args):
     idx, case = args
+    if _HANGS is not None and _HANGS.value >= MAX_HANGS:
+        # enough cases did not terminate (each one is a reported violation): the rest of this worker's chunk is not
+        # sat out - the run is reported as capped
+        return idx, {"violations": [], "not_run": True}
     try:
         with alarm(CASE_TIMEOUT):
             return idx, _WORK_FN(case)
     except CaseTimeout:
+        if _HANGS is not None:
+            with _HANGS.get_lock():
+                _HANGS.value += 1
         return idx, {"hang": True, "violations": [V(
             "harness/case-did-not-terminate",
             f"the library did not finish this case within {CASE_TIMEOUT:.0f} s of CPU time (normal cost: milliseconds "
@@ -180,9 +189,12 @@ class Ctx:
             cs = chunksize or max(1, len(cases) // (nproc * 8))
             ctx = mp.get_context("fork")
             res, hangs = [], 0
+            shared = ctx.Value("i", 0)
             with ctx.Pool(nproc, initializer=_init_worker,
-                          initargs=(fn.__module__, fn.__name__)) as pool:
+                          initargs=(fn.__module__, fn.__name__, shared)) as pool:
                 for r in pool.imap_unordered(_run_one, list(enumerate(cases)), chunksize=cs):
+                    if r[1].get("not_run"):
+                        continue
                     res.append(r)
                     hangs += bool(r[1].get("hang"))
                     if hangs >= MAX_HANGS:  # a hang is already a violation: do not sit out the rest
